@@ -134,7 +134,7 @@ pub fn strategy() -> BoxedStrategy<Case> {
 pub fn run(ctx: &Ctx) {
     sim::init();
     ctx.set_level("fault_enumeration");
-    ctx.set_rule("sim part: the receiving worker, windowsize 1..W (quick 4, thorough 6), upload lengths around block and window edges; EVERY abort point: the peer falls silent or sends ERROR at every receive position of the lossless run, and a write error (EFBIG through RLIMIT_FSIZE in a forked child, SIGXFSZ ignored) at every block edge and inside blocks; each x {clean-on-error, keep-on-error}; random scripts/faults/limits beyond. Oracle: after a failed upload the file is absent (clean) or present and a prefix of the bytes sent (keep); a completed upload leaves exactly the bytes received. wire part: (a) uploads against the real tftpd with timeout/blksize/windowsize and with or without a tsize option, aborted after 0..4 acknowledged blocks by a peer ERROR or by silence, x {clean, keep} x port mode - the file must be gone resp. a prefix of the bytes sent that contains every acknowledged block; (b) histories with duplicate / retransmitted WRQs for one name, incl. a duplicate that arrives 0.5 s after the first was accepted without --overwrite. Non-trivial = the upload failed; distinct = distinct (scenario, limit, trace shape).");
+    ctx.set_rule("sim part: the receiving worker, windowsize 1..W (quick 4, thorough 6), upload lengths around block and window edges; EVERY abort point: the peer falls silent or sends ERROR at every receive position of the lossless run, and a write error (EFBIG through RLIMIT_FSIZE in a forked child, SIGXFSZ ignored) at every block edge and inside blocks; each x {clean-on-error, keep-on-error}; random scripts/faults/limits beyond. Oracle: after a failed upload the file is absent (clean) or present and a prefix of the bytes sent (keep); a completed upload leaves exactly the bytes received. wire part: (a) uploads against the real tftpd with timeout/blksize/windowsize and with or without a tsize option, aborted after 0..4 acknowledged blocks by a peer ERROR or by silence, x {clean, keep} x port mode - the file must be gone resp. a prefix of the bytes sent that contains every acknowledged block; (b) histories with duplicate / retransmitted WRQs for one name, incl. a duplicate that arrives 0.5 s after the first was accepted without --overwrite, and - in a third of the histories - a further WRQ for the name after the upload has completed that carries an unhonourable option value and is therefore never accepted: the completed file must stay as it is. Non-trivial = the upload failed; distinct = distinct (scenario, limit, trace shape).");
     ctx.assume("write errors are produced by RLIMIT_FSIZE (EFBIG at a chosen offset); ENOSPC/EIO are assumed to take the same error path (Window::empty -> Err)");
     let dirs = DirPool::new(ctx, "c13");
     let wmax = ctx.tier.pick(4, 6);
